@@ -95,6 +95,23 @@ impl RetryPolicy {
         Ok(Self::default())
     }
 
+    /// Next backoff: `current * multiplier`, clamped to `[0, max_backoff]`.
+    ///
+    /// The multiplier is plain configuration (`CASCETTE_BACKOFF_MULTIPLIER`), so
+    /// negative, NaN and infinite values are reachable and must not be handed to
+    /// `Duration::from_secs_f64`, which panics on them. A NaN or too large
+    /// product saturates at `max_backoff`, a negative one at zero.
+    fn next_backoff(&self, current: Duration) -> Duration {
+        let next = current.as_secs_f64() * self.multiplier;
+        if next.is_nan() || next >= self.max_backoff.as_secs_f64() {
+            self.max_backoff
+        } else if next <= 0.0 {
+            Duration::ZERO
+        } else {
+            Duration::try_from_secs_f64(next).map_or(self.max_backoff, |d| d.min(self.max_backoff))
+        }
+    }
+
     /// Execute a function with retry logic
     pub async fn execute<F, Fut, T>(&self, mut f: F) -> Result<T>
     where
@@ -136,10 +153,7 @@ impl RetryPolicy {
                     sleep(delay).await;
 
                     // Increase backoff
-                    backoff = Duration::from_secs_f64(
-                        (backoff.as_secs_f64() * self.multiplier)
-                            .min(self.max_backoff.as_secs_f64()),
-                    );
+                    backoff = self.next_backoff(backoff);
                 }
             }
         }
